@@ -99,6 +99,16 @@ check("C19", "model_checking",
       "Trusted: the harness's parser of error texts and its rendering of the 60-byte truncation; TLC. The cross-VM language part is checked with C11's schedule replay.",
       "TLA+ position/message spec + exhaustive small-alphabet input enumeration (TLC) + TLC trace validation of real error texts", "DESIGN.md section 4 C19")
 
+check("C13", "model_checking",
+      "spec/Lexis.tla: texts over a 16-symbol alphabet rich in quotes, backslashes, braces, CR/LF, 0x1E and multi-byte characters; Escape per "
+      "quote style and policy, Unescape, and the round-trip theorem checked by TLC for all texts up to length 3/4; every (text, style, policy) "
+      "literal TLC wrote is evaluated by the real parser alone and inside a surrounding evaluation and compared byte for byte.  Templates are "
+      "Lang AST nodes: TLC (Lang.tla) prescribes the concatenation of literal segments and string forms of holes (expressions or statement "
+      "blocks, assignments inside holes, nested templates, templates as elements/arguments/operands, nesting depth 1..23) and the variables "
+      "afterwards; the real VM must agree, or reject nesting beyond the limit - never produce another text.",
+      "Trusted: symbol-to-byte mapping, TLC; template literal segments are escaped by the harness. Unrepresentable texts (delimiter without escape) are skipped and counted.",
+      "TLA+ escape/unescape theorem (TLC) + exhaustive literal replay + TLA+ Lang oracle for templates", "DESIGN.md section 4 C13")
+
 NOT_YET = "check under construction in this build phase (planned in DESIGN.md section 4); not yet claimed"
 
 m = {
